@@ -114,3 +114,11 @@ package client
 //@ loop 2 invariant forall u: string, i: int :: 0 <= i && i <= rangeindex1 && matchesAll(tableCache, c.anyConditions[i], u) ==> (u in found)
 //@ loop 2 invariant forall u: string :: visited(u) && matchesAll(tableCache, c.anyConditions[rangeindex1 + 1], u) ==> (u in found)
 //@ loop 2 invariant forall u: string :: (u in models) == matchesAll(tableCache, c.anyConditions[rangeindex1 + 1], u)
+
+// api.List (C13): an unconditional List hands out the deep copies made by
+// RowCache.Rows, never the cache's own objects (RowsShallow is the documented
+// read-only exception and is not for results given to the user).
+//@ func (api).List group clone
+//@ trace cache.(*RowCache).RowsShallow cache.(*RowCache).Rows client.Conditional.Matches
+//@ ensures calls("cache.(*RowCache).RowsShallow") == 0 || calls("client.Conditional.Matches") >= 1
+//@ ensures_ok calls("cache.(*RowCache).Rows") + calls("client.Conditional.Matches") == 1
